@@ -442,9 +442,17 @@ def check_property(pid, tier, seed, jobs, scratch):
                     else:
                         reported.append((path, rep["violation"], len(members)))
                     continue
-                unreproduced.append((rep, v0))
-                continue
-        if gi < 12 and not eng.get("nondeterministic"):
+                # identical trace, and the violation shows in some executions only? (code under test that is not a function of its inputs)
+                hits = 0
+                for k in range(12):
+                    vk, _, _ = replay_once(binary, tr, scratch, "g%d-raw%d" % (gi, k), maxprocs=mp, extra_env=xe)
+                    if vclass(vk) == want:
+                        hits += 1
+                if hits < 2:
+                    unreproduced.append((rep, v0))
+                    continue
+                rep["flaky"] = hits
+        if gi < 12 and not eng.get("nondeterministic") and not rep.get("flaky"):
             mt, ncalls = minimise(binary, tr, want, scratch, "g%d" % gi, budget=300 if tier == "quick" else 600, maxprocs=mp, extra_env=xe,
                                   deadline=min(min_deadline, time.time() + (90 if tier == "quick" else 300)))
         else:
@@ -457,20 +465,36 @@ def check_property(pid, tier, seed, jobs, scratch):
             want = vclass(v1)
         # a run in which the Go runtime ordered part of the events (worker says so): same class twice, the logs may differ
         loose = bool((v1 or {}).get("nondet") or (rep["violation"] or {}).get("nondet"))
-        if vclass(v1) != want or (not eng.get("nondeterministic") and (vclass(v2) != want or (h1 != h2 and not loose))):
+        # The same violation class in two fresh processes is what counts. When the two event logs differ although the trace
+        # (operations, faults, schedule, clock) is identical, the code under test itself behaves differently from execution
+        # to execution (iteration order of a map, say); the replay file says so.
+        if vclass(v1) != want or (not eng.get("nondeterministic") and vclass(v2) != want):
             # minimised trace is not stable: fall back to the raw one
             mt = copy.deepcopy(tr)
             v1, h1, elog = replay_once(binary, mt, scratch, "g%d-final" % gi, showlog=True, maxprocs=mp, extra_env=xe)
             v2, h2, _ = replay_once(binary, mt, scratch, "g%d-final2" % gi, maxprocs=mp, extra_env=xe)
-            if vclass(v1) != want or (not eng.get("nondeterministic") and h1 != h2 and not loose):
-                unreproduced.append((rep, v1))
-                continue
+            if vclass(v1) != want or (not eng.get("nondeterministic") and vclass(v2) != want):
+                # a violation that shows in some executions of one trace and not in others: try harder before giving up
+                hits = 0
+                for k in range(10):
+                    vk, hk, ek = replay_once(binary, mt, scratch, "g%d-again%d" % (gi, k), showlog=True, maxprocs=mp, extra_env=xe)
+                    if vclass(vk) == want:
+                        hits += 1
+                        v1, h1, elog = vk, hk, ek
+                if hits < 2:
+                    unreproduced.append((rep, v1))
+                    continue
+                h2 = ""
+        unstable = (not eng.get("nondeterministic")) and (h1 != h2 or rep.get("flaky")) and not loose
         mt["violation"] = v1
         mt["event_log_sha256"] = h1
         mt["note"] = "minimised with %d replays; %d run(s) of this batch share this violation signature (first: run %d)" % (ncalls, len(members), rep["run"])
         if mt.get("warmup"):
             mt["note"] += ("; the violation does NOT occur when the trace runs alone in a fresh process: it needs the listed warm-up runs of the same batch "
                            "executed first in the same process, i.e. the code under test keeps process-global state")
+        if unstable:
+            mt["note"] += ("; identical trace, different event logs from execution to execution: the code under test does not behave the same way every "
+                           "time it is given the same operations, faults, schedule and clock")
         if elog:
             mt["event_log"] = elog[-60:]
         kf = match_known(pid, mt, v1, known)
@@ -525,8 +549,10 @@ def check_property(pid, tier, seed, jobs, scratch):
     if unreproduced:
         for rep, v in unreproduced[:5]:
             log("UNREPRODUCED run=%d first=%s replay=%s" % (rep["run"], vclass(rep["violation"]), vclass(v)))
-        log("a violation did not reproduce under replay: the machinery is at fault (exit 2)")
-        return 2
+        if not reported:
+            log("a violation did not reproduce under replay: the machinery is at fault (exit 2)")
+            return 2
+        log("%d observation(s) did not reproduce under replay and are not reported; the reported violation(s) did" % len(unreproduced))
     return 1 if reported else 0
 
 
